@@ -358,7 +358,7 @@ func execStateMethods(c *Ctx, which map[string]bool) {
 					continue
 				}
 				hasRes := p.State.Facts.Truth(ts, ts.Cmp("!=", res, ts.Nil(nil)))
-				if hasRes == triT && (sr == nil || se == nil || sr.Val != ev.LoadField(s0, res, "Result") || se.Val != ev.LoadField(s0, res, "Error")) {
+				if hasRes != triF && (sr == nil || se == nil || sr.Val != ev.LoadField(s0, res, "Result") || se.Val != ev.LoadField(s0, res, "Error")) {
 					bad("Cancel with a result must also make it the execution's last result and error (waiting policies report LastError as the cause)")
 				}
 				if hasRes == triF && (sr != nil || se != nil) {
